@@ -5,9 +5,9 @@
 (* eagerly, which is why this lives in its own module).                                                      *)
 EXTENDS MCStreamConv
 
-RandDetail(n) == D(n, RandomElement(CTs), RandomElement(Seqs(3)))
+RandDetail(n) == D(n, RandomElement(CTsAll), RandomElement(Seqs(3) \cup SplitSeqs))
 PayR == {<<>>} \cup { <<RandDetail("d1")>> : i \in 1..20 }
                \cup { <<RandDetail("d1"), RandDetail("d2")>> : i \in 1..30 }
                \cup { <<RandDetail("d2"), RandDetail("d1")>> : i \in 1..10 }
-CallsR == CallsOver(PayR) \cup SkipWithReasonDetail({P0, P1, P2, P3})
+CallsR == CallsOver(PayR \cup Two({<<"x">>}, CasePairs)) \cup CaseCalls \cup SkipWithReasonDetail({P0, P1, P2, P3})
 =============================================================================
